@@ -2,7 +2,7 @@
     Statements only.  Both construction paths are judged by verified checkers. *)
 From Coq Require Import List NArith Sorting.Sorted.
 From MOC.Base Require Import RangeSet.
-From MOC.Model Require Import Qty Ops1D ST Sweep2D TSIter.
+From MOC.Model Require Import Qty Ops1D ST Sweep2D TSIter STBuilder.
 Import ListNotations.
 Open Scope N_scope.
 
@@ -81,6 +81,25 @@ Theorem C09_store_path_as_written : forall es,
   STchain 0 (time_space_iter (r2d_build es)).
 Proof. exact store_build_spec. Qed.
 
+(** the streaming builder fed with (time cell, space cell) pairs AS WRITTEN (buff_to_moc on the buffer
+    sorted by time cell: the space cells of one time cell feed a space builder, consecutive time cells
+    with an equal space MOC are gathered in one element), when no flush occurs, with the two cell
+    builders taken through their specification (C06): exactly the pairs pushed are covered and no
+    element is empty; general form for any correct cell builders, and the executable instance *)
+Theorem C09_cell_builder_as_written : forall in1 in2 mk1 mk2,
+  (forall cells t, cov (mk1 cells) t <-> exists c, In c cells /\ in1 c t) ->
+  (forall cells x, cov (mk2 cells) x <-> exists c, In c cells /\ in2 c x) ->
+  (forall cells, cells <> [] -> mk1 cells <> []) -> (forall cells, cells <> [] -> mk2 cells <> []) ->
+  forall buff, tsorted 0 buff ->
+  (forall t x, cov2 (buff_to_moc mk1 mk2 buff) t x <-> pairs in1 in2 buff t x) /\
+  forall e, In e (buff_to_moc mk1 mk2 buff) -> fst e <> [] /\ snd e <> [].
+Proof. exact buff_to_moc_spec. Qed.
+
+Theorem C09_cell_builder_executable_model : forall dt ds buff,
+  (forall t x, cov2 (st_build dt ds buff) t x <-> exists p, In p buff /\ in_cell Time dt (fst p) t /\ in_cell Hpx ds (snd p) x) /\
+  forall e, In e (st_build dt ds buff) -> fst e <> [] /\ snd e <> [].
+Proof. exact st_build_spec. Qed.
+
 Print Assumptions C09_observations_pointset.
 Print Assumptions C09_depends_on_observation_set_only.
 Print Assumptions C09_built_moc_checker_exact.
@@ -89,3 +108,5 @@ Print Assumptions C09_range2d_validity_checker_exact.
 Print Assumptions C09_range2d_construction_as_written.
 Print Assumptions C09_range2d_executable_model.
 Print Assumptions C09_store_path_as_written.
+Print Assumptions C09_cell_builder_as_written.
+Print Assumptions C09_cell_builder_executable_model.
